@@ -18,13 +18,15 @@ theorem plainSize_pos (a b : Nat) : 0 < plainSize a b := by
 
 /-- a served `set` is the bucket model's set (same arguments the storage client passes) -/
 theorem processStore_b (cfg : Cfg) (st : St) (r : Req) (buf : Buf)
-    (hv : validKeyString (r.keys.headD []) = true) (he : 0 ≤ r.exptime) :
+    (hv : validKeyString (r.keys.headD []) = true) (he : 0 ≤ r.exptime)
+    (hf : ((r.flag % 4294967296).toNat / 65536) % 2 ≠ 1) :
     (processStore cfg st r buf).1.b
       = (Store.step hashOf cfg.store st.b (.set (r.keys.headD []) r.body (r.flag % 4294967296).toNat
             (Int32.toInt (Int32.ofInt r.exptime)) 0 (plainSize (r.keys.headD []).length r.body.length))).1 := by
   unfold processStore
   have hne : ¬ r.exptime < 0 := by omega
-  simp only [hv, hne, Bool.not_true, Bool.false_or, decide_false, Bool.false_eq_true, if_false]
+  have hfb : ((r.flag % 4294967296).toNat / 65536 % 2 == 1) = false := by simpa using hf
+  simp only [hv, hne, hfb, Bool.not_true, Bool.false_or, Bool.or_false, decide_false, Bool.false_eq_true, if_false]
   rw [step_set]
   generalize checkAndSet hashOf cfg.store st.b (r.keys.headD []) r.body (r.flag % 4294967296).toNat
       (Int32.toInt (Int32.ofInt r.exptime)) (some 0) (plainSize (r.keys.headD []).length r.body.length) 0 = res
@@ -73,14 +75,15 @@ theorem set_then_get (cfg : Cfg) (hcv : cfg.store.checkVHash = false) (hmk : cfg
     (K : Key → Prop) (hInj : InjOn hashOf K) (n : Nat) (hn : n + 1 < 2147483647)
     (st : St) (m : KV) (hb : Backed K n st m)
     (k body : Bytes) (flag : Int) (nr : Bool) (buf : Buf)
-    (hk : K k) (hv : validKeyString k = true) (hlen : body.length < 2^63) :
+    (hk : K k) (hv : validKeyString k = true) (hlen : body.length < 2^63)
+    (hflag : ((flag % 4294967296).toNat / 65536) % 2 ≠ 1) :
     let rset : Req := { cmd := ascii "set", keys := [k], flag := flag, exptime := 0, body := body, noreply := nr }
     let rget : Req := { cmd := ascii "get", keys := [k] }
     (processGet cfg (processStore cfg st rset buf).1 rget).2.1
       = some (.value false [{ key := k, flag := ((flag % 4294967296).toNat : Int), body := [.lit body], len := body.length }]) := by
   intro rset rget
   have hkeys : rset.keys.headD [] = k := rfl
-  have hb1 := processStore_b cfg st rset buf (by rw [hkeys]; exact hv) (by simp [rset])
+  have hb1 := processStore_b cfg st rset buf (by rw [hkeys]; exact hv) (by simp [rset]) hflag
   have hrev : Int32.toInt (Int32.ofInt rset.exptime) = 0 := by simp [rset]
   rw [hkeys, hrev] at hb1
   have hsz := plainSize_pos k.length rset.body.length
